@@ -692,7 +692,9 @@ class SoftwareSwitchBase (object):
         if no == in_port: continue
         real_send(port)
     elif out_port == OFPP_CONTROLLER:
-      buffer_id = self._buffer_packet(packet, in_port)
+      # Buffer a snapshot: actions modify the packet in place, and the ones
+      # that follow must not alter what the controller has been shown
+      buffer_id = self._buffer_packet(ethernet(packet.pack()), in_port)
       # Should we honor OFPPC_NO_PACKET_IN here?
       self.send_packet_in(in_port, buffer_id, packet, reason=OFPR_ACTION,
                           data_length=max_len)
